@@ -423,7 +423,19 @@ class LazyEvaluatedKernelTensor(LinearOperator):
             batch_indices = [slice(None, None, None)] * (self.dim() - 2)
             return self._getitem(row_index, col_index, *batch_indices)
         else:
-            return super().__getitem__(index)
+            # LinearOperator.__getitem__ turns an int i in a matrix dimension into slice(i, i + 1), which is empty for
+            # i = -1: make negative ints in the last two dimensions non-negative first
+            index = list(index)
+            ellipsis_locs = [loc for loc, item in enumerate(index) if item is Ellipsis]
+            if len(ellipsis_locs) == 1:
+                loc = ellipsis_locs[0]
+                index[loc : loc + 1] = [slice(None, None, None)] * (self.dim() - (len(index) - 1))
+            if len(ellipsis_locs) <= 1 and len(index) <= self.dim():
+                index += [slice(None, None, None)] * (self.dim() - len(index))
+                for pos in (-2, -1):
+                    if isinstance(index[pos], int) and index[pos] < 0:
+                        index[pos] += self.shape[pos]
+            return super().__getitem__(tuple(index))
 
 
 deprecation._deprecated_renamed_method(
